@@ -48,19 +48,19 @@ UNIT = Unit(
                       note="a pool is named only by the canonical spelling of a pair of REAL denominations: never the placeholder NewCustom, under which every transaction declares its own new token")]),
         Fn(M, "get_swap_transactions", home="C15", implicit_props=("C09", "C15"),
            requires=[C("wf", "state.coins.wf()")],
-           ensures=[C("selected", "selected(state.transactions@, res@, swap_pred(*state))", "C15", "C01", "C16")],
+           ensures=[C("selected", "selected(state.transactions@, res@, swap_pred(*state))", "C15", "C01", "C16", "C20")],
            rewrites=[("ANF", "collect", 0, 4, {2: sel_proof("is_swap_req", "swap_pred(*state)")})],
-           closures=[Closure(0, "tx: Transaction", "(r: Option<Transaction>)", ensures=[C("pred", "r == (if is_swap_req(*state, tx) { Some(tx) } else { None::<Transaction> })", "C15", "C16", "C01")])]),
+           closures=[Closure(0, "tx: Transaction", "(r: Option<Transaction>)", ensures=[C("pred", "r == (if is_swap_req(*state, tx) { Some(tx) } else { None::<Transaction> })", "C15", "C16", "C01", "C20")])]),
         Fn(M, "get_deposit_transactions", home="C15", implicit_props=("C09", "C15"),
            requires=[C("wf", "state.coins.wf()")],
-           ensures=[C("selected", "selected(state.transactions@, res@, deposit_pred(*state))", "C15", "C01", "C16")],
+           ensures=[C("selected", "selected(state.transactions@, res@, deposit_pred(*state))", "C15", "C01", "C16", "C20")],
            rewrites=[("ANF", "collect", 0, 4, {2: sel_proof("is_deposit_req", "deposit_pred(*state)")})],
-           closures=[Closure(0, "tx: Transaction", "(r: Option<Transaction>)", ensures=[C("pred", "r == (if is_deposit_req(*state, tx) { Some(tx) } else { None::<Transaction> })", "C15", "C16", "C01")])]),
+           closures=[Closure(0, "tx: Transaction", "(r: Option<Transaction>)", ensures=[C("pred", "r == (if is_deposit_req(*state, tx) { Some(tx) } else { None::<Transaction> })", "C15", "C16", "C01", "C20")])]),
         Fn(M, "get_withdrawal_transactions", home="C15", implicit_props=("C09", "C15"),
            requires=[C("wf", "state.coins.wf()")],
-           ensures=[C("selected", "selected(state.transactions@, res@, withdraw_pred(*state))", "C15", "C01", "C16")],
+           ensures=[C("selected", "selected(state.transactions@, res@, withdraw_pred(*state))", "C15", "C01", "C16", "C20")],
            rewrites=[("ANF", "collect", 0, 4, {2: sel_proof("is_withdraw_req", "withdraw_pred(*state)")})],
-           closures=[Closure(0, "tx: Transaction", "(r: Option<Transaction>)", ensures=[C("pred", "r == (if is_withdraw_req(*state, tx) { Some(tx) } else { None::<Transaction> })", "C15", "C16", "C01")])]),
+           closures=[Closure(0, "tx: Transaction", "(r: Option<Transaction>)", ensures=[C("pred", "r == (if is_withdraw_req(*state, tx) { Some(tx) } else { None::<Transaction> })", "C15", "C16", "C01", "C20")])]),
         Fn(M, "extract_pool_keys_sorted", home="C15", implicit_props=("C09", "C15", "C16"), **mm_extract_pool_keys(),
            rewrites=[("PIPE",), ("SUBALL", r"\b(\w+)\.sort(?:_unstable)?\(\);", "pk_sort(&mut ${1});"), ("SUBALL", r"\b(\w+)\.dedup\(\);", "pk_dedup(&mut ${1});"), ("ANF", "collect", 0, 3, {}, "K"), ("ROOT", "iter", 0, "slice_iter", False)],
            closures=[Closure(0, "tx: &Transaction", "(r: Option<PoolKey>)", ensures=[C("key", "r == spec_req_key(tx.data@)", "C15")])],
